@@ -13,7 +13,7 @@
    The bound `length cs <= 181` is the code's own: the stop test compares an i16 sum with n*n. *)
 From Coq Require Import Reals ZArith List Bool Permutation Lra.
 From RL Require Import Base.Num Base.Str Base.NumR Base.Outcome Model.Dual Model.Number Model.FX
-  Proofs.FXMat Proofs.FXFill Proofs.FXTree Proofs.FXCreate Proofs.FXP Proofs.FXAcc.
+  Proofs.FXMat Proofs.FXFill Proofs.FXTree Proofs.FXCreate Proofs.FXP Proofs.FXAcc Proofs.FXReload.
 Import ListNotations.
 Local Open Scope R_scope.
 
@@ -104,6 +104,19 @@ Proof. exact non_tree_rejected. Qed.
 Theorem C09_never_aborts : forall (qs : list (fxrate R)) base,
   (length (ccy_index qs base) <= 181)%nat -> fx_try_new qs base <> Panic.
 Proof. exact try_new_no_panic. Qed.
+
+(* THE MARKET RESTORED FROM ITS SAVED DOCUMENT.  The loader (impl TryFrom<FXRatesDataModel> for FXRates; Model/Json.v
+   rebuild_fx) calls try_new again on the saved quotes with the FIRST SAVED CURRENCY as base.  Whatever base the market was
+   built with, the rebuild succeeds, lists the same currencies in the same order, keeps the quotes, and returns the same
+   rate for every pair. *)
+Theorem C09_reloaded_market : forall cs (qs : list (fxrate R)) base fx,
+  tree_quotes cs qs -> qs <> [] -> base_ok cs base -> settlement_consistent qs = true ->
+  (length cs <= 181)%nat -> quotes_nonzero qs ->
+  fx_try_new qs base = Ok fx ->
+  exists fx', fx_try_new (fx_rates fx) (Some (hd [] (currencies fx))) = Ok fx' /\
+    currencies fx' = currencies fx /\ fx_rates fx' = fx_rates fx /\
+    forall a b, In a cs -> In b cs -> rate_val fx a b = rate_val fx' a b.
+Proof. exact reload_same_market. Qed.
 
 (* ------------------------------------------------------------------ non-vacuity *)
 Definition usd : name := [117; 115; 100]%Z.
